@@ -112,6 +112,63 @@ func c16(c *Ctx) {
 		}
 	}
 
+	// every goroutine that gives a count back took one: a Done without its Add drives the counter below zero on
+	// the second reconnect, and a negative WaitGroup counter is a panic in a goroutine nobody recovers
+	{
+		tr3 := an.NewTracer()
+		isWG := func(cs an.CallSite, name string) bool {
+			return cs.Name == "(*sync.WaitGroup)."+name && len(cs.Common.Args) > 0 && strings.HasSuffix(tr3.OriginString(cs.Common.Args[0]), "mtproto.MTProto.routineswg")
+		}
+		n := 0
+		var rootFns []*ssa.Function
+		for f := range c.P.AllFunctions() {
+			if load.FuncPkgPath(f) == load.RootMod && len(f.Blocks) > 0 && f.Parent() == nil {
+				rootFns = append(rootFns, f)
+			}
+		}
+		sort.Slice(rootFns, func(i, j int) bool { return rootFns[i].String() < rootFns[j].String() })
+		for _, f := range rootFns {
+			for _, b := range f.Blocks {
+				for _, in := range b.Instrs {
+					g, ok := in.(*ssa.Go)
+					if !ok {
+						continue
+					}
+					mc, ok := g.Call.Value.(*ssa.MakeClosure)
+					if !ok {
+						continue
+					}
+					body, _ := mc.Fn.(*ssa.Function)
+					if body == nil {
+						continue
+					}
+					dones := 0
+					for _, cs := range an.Calls(body) {
+						if isWG(cs, "Done") {
+							dones++
+						}
+					}
+					adds := 0
+					for _, cs := range an.Calls(f) {
+						if isWG(cs, "Add") && an.InstrDominates(cs.Instr, in) {
+							if k, isK := an.ConstInt(cs.Common.Args[1]); isK && k == 1 {
+								adds++
+							}
+						}
+					}
+					if dones == 0 && adds == 0 {
+						continue
+					}
+					n++
+					r.Check(dones == adds, "R16.W", sprintf("counted:add-done-paired:%s#%d", an.ShortName(f), n), c.pos(in.Pos()), sprintf("the goroutine started here calls routineswg.Done() %d time(s); %d routineswg.Add(1) precede its start", dones, adds))
+				}
+			}
+		}
+		if n == 0 {
+			r.Undecide("R16.W", "counted:add-done-paired", "", "no goroutine of the root package uses routineswg")
+		}
+	}
+
 	// ---- R16.D ----------------------------------------------------------------------------------
 	pr := c.fn("R16.D", load.RootMod, "*MTProto", "processResponse")
 	if pr != nil {
